@@ -33,6 +33,9 @@ type State struct {
 	rrcNegotiated             bool
 	isClient                  bool
 	version                   protocol.Version
+	// cipherSuite is the negotiated suite of the live connection this State was taken
+	// from; it resolves application-supplied (custom) suites, which have no registry entry.
+	cipherSuite CipherSuite
 
 	CipherSuiteID      CipherSuiteID
 	PeerCertificates   [][]byte
@@ -91,6 +94,7 @@ func generateState(internalState *dtlsstate.State) (*State, error) {
 		rrcNegotiated:         internalState.RRCNegotiated,
 		isClient:              internalState.IsClient,
 		version:               protocol.Version1_2,
+		cipherSuite:           internalState.CipherSuite,
 		CipherSuiteID:         internalState.CipherSuite.ID(),
 		PeerCertificates:      internalState.PeerCertificates,
 		IdentityHint:          internalState.IdentityHint,
@@ -210,6 +214,9 @@ func (s *State) deserialize(serialized serializedState) {
 
 func (s *State) initializedCipherSuite() (CipherSuite, error) {
 	cipherSuite := ciphersuite.ForID(s.CipherSuiteID, nil)
+	if cipherSuite == nil && s.cipherSuite != nil && s.cipherSuite.ID() == s.CipherSuiteID {
+		cipherSuite = s.cipherSuite
+	}
 	if cipherSuite == nil {
 		return nil, dtlserrors.ErrCipherSuiteNotSet
 	}
